@@ -89,6 +89,8 @@ def take_trace():
         rest = t[7:]
         for j in range(0, len(rest), 7):
             iseq, sent, recv, dsrc, deps, dseq, dh = rest[j:j + 7]
+            real = onp.asarray(iseq) >= 0
+            sent, recv = onp.where(real, sent, 0), onp.where(real, recv, 0)
             ins.append(dict(seq=[int(v) if v >= 0 else -1 for v in iseq], sent=_fbits(sent), recv=_fbits(recv), dsrc=dsrc.tolist(),
                             deps=deps.tolist(), dseq=dseq.tolist(), dh=dh.tolist()))
         evs.append(dict(node=int(idx), eps=int(eps), seq=int(seq), ts=_fbits(ts)[0], rng=onp.asarray(rng).reshape(-1).tolist(),
